@@ -118,4 +118,4 @@ def run(chk):
     n = (400 if tier == 'quick' else 8000)
     per = max(1, n // (core.NPROC * (1 if tier == 'quick' else 8)))
     wjobs = [(chk.seed * 1000 + i, pid, per) for i in range(n // per)]
-    return core.stream(small, [(row, pid, tier, i) for i, row in enumerate(rows)], wide, wjobs, tier, step=64, chunksize=1)
+    return core.stream(small, [(row, pid, tier, i) for i, row in enumerate(rows)], wide, wjobs, tier, step=16, chunksize=1)
